@@ -116,8 +116,18 @@ def num(s: str) -> int:
     return int("".join(str(ALNUM.index(c)) for c in s))
 
 
+def mod97(s: str) -> int:
+    """num(s) mod 97, digit by digit (texts of any length: no big integers, no interpreter limit on digit strings)."""
+    r = 0
+    for c in s:
+        v = ALNUM.index(c)
+        r = (r * 10 + v) % 97 if v < 10 else (r * 100 + v) % 97
+    return r
+
+
 def canonical_digits(cc: str, bban: str) -> str:
-    return f"{98 - num(bban + cc + '00') % 97:02d}"
+    s = bban + cc + "00"
+    return f"{98 - (num(s) % 97 if len(s) < 2000 else mod97(s)):02d}"
 
 
 class IbanOracle:
